@@ -124,6 +124,15 @@ def check(chk, repo):
             else:
                 rep.ev("DET-source", ev, False, f"nondeterministic source {name} inside a distance/fit/predict path")
     chk.note("clock_reads_checked", n_clock)
+    # (iii-b) recycled memory: an array from np.empty holds whatever an earlier computation of the process left in
+    # the block.  An element that is read to decide or compute its own new value (running maximum / sum / counter)
+    # must have a defined start: the array is zeros/ones/full, or is fill()-ed / slice-assigned before, on every path
+    n_empty = 0
+    for fi in reach:
+        for ev, arr, how in uninitialised_accumulators(eff.walker(fi)):
+            n_empty += 1
+            rep.ev("DET-uninit", ev, how is None, how or "")
+    chk.note("np_empty_accumulators_checked", n_empty)
     # (iv) hidden state in decorators: anything on a distance / fit / predict path that is wrapped by a decorator
     # other than the known transparent ones keeps state between calls (memoisation) or changes the call
     transparent = {"njit", "jit", "avoid_zero_division", "property", "setter", "wraps", "staticmethod", "classmethod"}
@@ -188,6 +197,52 @@ def check(chk, repo):
     chk.undecided.append("bit-for-bit equality of two fits as a run-time fact (follows from determinism + no shared state)")
     chk.assumptions += ["NumPy view/copy rules as documented", "numba-compiled bodies have NumPy semantics",
                         "call resolution by method name is an over-approximation of the real call graph"]
+
+
+def _peel(t):
+    while t[0] == "old":
+        t = t[1]
+    return t
+
+
+def uninitialised_accumulators(w):
+    """(store event, array, reason or None) for every self-dependent element update of an np.empty array allocated in
+    the walked function: `A[e] op= v`, `A[e] = f(A[e])`, or `A[e] = v` under a test that reads A[e]."""
+    from ..ir import subterms
+    allocs = {}
+    for ev in w.events:
+        if ev.kind == "call" and ev.value is not None and ev.value[0] == "alloc" \
+                and ev.value[1] in ("numpy.empty", "numpy.empty_like", "numpy.ndarray"):
+            allocs[ev.value] = ev
+    if not allocs:
+        return
+    for ev in w.events:
+        if ev.kind != "store" or ev.target[0] != "idx" or _peel(ev.target[1]) not in allocs:
+            continue
+        arr = _peel(ev.target[1])
+        ix = ev.target[2]
+
+        def self_read(t):
+            return any(x[0] == "idx" and _peel(x[1]) == arr and x[2] == ix for x in subterms(t))
+        dep = bool(ev.aug) or self_read(ev.value) or any(self_read(c) for c, _ in ev.guards)
+        if not dep:
+            continue
+        init = None
+        for e2 in w.events:
+            if e2.seq >= ev.seq:
+                break
+            whole = (e2.kind == "call" and e2.target is not None and e2.target[0] == "attr" and e2.target[2] == "fill"
+                     and _peel(e2.target[1]) == arr) or \
+                    (e2.kind == "store" and e2.target[0] == "idx" and _peel(e2.target[1]) == arr
+                     and e2.target[2][0] == "slice" and all(x == ("const", None) for x in e2.target[2][1:]))
+            if whole and e2.loops == ev.loops[:len(e2.loops)] and e2.guards == ev.guards[:len(e2.guards)]:
+                init = e2
+        how = None
+        if init is None:
+            how = (f"{show(arr)} comes from np.empty and its element [{show(ix)}] is read to compute its own new value "
+                   "before anything defined it: the start value is recycled memory, so the result depends on what the "
+                   "process computed earlier")
+        yield ev, arr, how
 
 
 def _is_local(fi, name):
